@@ -1,6 +1,6 @@
 (* Extraction of every executable Model and Spec entry point.  ExtrOcamlBasic only. *)
 From Coq Require Import Extraction ExtrOcamlBasic.
-From SA Require Import Base.Prelude Solr.MM Solr.MM_Spec Kernels.Intersect Kernels.Linear Kernels.Spec Codec.Codec Codec.Codec_Spec Index.Index Index.Index_Spec.
+From SA Require Import Base.Prelude Solr.MM Solr.MM_Spec Kernels.Intersect Kernels.Linear Kernels.Spec Codec.Codec Codec.Codec_Spec Index.Index Index.Index_Spec Query.Phrase Query.Phrase_Spec.
 Extraction "samodel.ml"
   mm_f64 solr_mm
   intersect_drop intersect_keep adjacent intersect_with_adjacents lowbit
@@ -11,4 +11,5 @@ Extraction "samodel.ml"
   encode encode_b decode slice_keys slice_header slice_range num_values_per_key keys_unique
   encode_spec group_by_key counts_spec keys_spec slice_spec boundaries_spec
   index termfreqs docfreq doclengths corpus_size total_len positions
-  tf_spec df_spec lens_spec total_spec positions_spec.
+  tf_spec df_spec lens_spec total_spec positions_spec
+  phrase_freqs choose_strategy get_all_posts phrase_spec phrase_nonoverlap_spec no_adjacent_repeat.
